@@ -56,6 +56,18 @@ def scenario(rng, findings=False):
         steps.append({"op": "call", "i": rng.choice([1, 2]), "api": "copy", "j": 3,
                       "how": rng.choice(["deepcopy", "pickle"])})
         sends([1, 2, 3], rng.randint(2, 6))
+    # a copy taken by a CALLBACK, in the middle of a transition and with an event already queued behind it (an undo /
+    # persistence hook): slot 3 then holds a machine at rest, with nothing of what the original was in the middle of
+    if not any(st.get("j") == 3 for st in steps) and rng.random() < 0.35:
+        cands = [c for c, cb in enumerate(d["cbs"], start=1) if cb["group"] not in ("cond", "validators")]
+        if cands:
+            c = rng.choice(cands)
+            scn["script"] = dict(scn.get("script") or {})
+            scn["script"][str(c)] = [rng.choice(d["evlist"]), {"copy": 3, "how": rng.choice(["deepcopy", "pickle"])}]
+            scn["budget"] = max(2, scn.get("budget", 0))
+            new["opt"]["budget"] = max(2, new["opt"].get("budget", 0))
+            sends([1, 3, 3], rng.randint(2, 5))
+            scn["callback_copy"] = True
     # events bound onto the model (bind_events_to / MachineMixin): after a copy, the clone's model drives the CLONE
     if rng.random() < 0.4:
         new["bind_model"] = True
@@ -104,7 +116,7 @@ def featurize(scn, res, v):
     if async_any and not async_on_machine_or_model:
         listener_only_async = True
     nxt = lines[k] if k < len(lines) else {}
-    return {"events_bound_to_model": bool(scn["steps"][0].get("bind_model")), "listener_kind": scn.get("listener_kind", "attr"), "listeners": len([p for p in ctor_provs if p not in ("sm", "model")]),
+    return {"copy_taken_by_callback": bool(scn.get("callback_copy")), "events_bound_to_model": bool(scn["steps"][0].get("bind_model")), "listener_kind": scn.get("listener_kind", "attr"), "listeners": len([p for p in ctor_provs if p not in ("sm", "model")]),
             "copied_before_activation": copied_before_activation, "async_only_on_listeners": listener_only_async,
             "written_before_activation": written_before_activation,
             "on_clone": nxt.get("i", 1) != 1}
